@@ -23,7 +23,8 @@ RULE = ("n = 1..12, ASYMMETRIC non-negative flow / distance matrices: random "
         "non-trivial = distinct (F, D, p) with n >= 3 and F, D both "
         "non-symmetric")
 LEVEL_ASSUMPTIONS = ["oracle: Python big-int double sum"]
-REQUIRED = {"shipped_qaplib_instances": 50, "size_window_instances": 10, "tag[almost-symmetric]": 20, "evaluations": 3000, "dtype_edge_instances": 100,
+REQUIRED = {"shipped_qaplib_instances": 50,
+            "instances_with_given_bounds": 30, "tag[diagonal-sentinel]": 10, "size_window_instances": 10, "tag[almost-symmetric]": 20, "evaluations": 3000, "dtype_edge_instances": 100,
             "value_equals_upper_bound": 50, "text_instances": 100,
             "instances_all_perms": 30}
 
@@ -35,6 +36,8 @@ def plan(tier: str, seed: int):
     return [{"name": f"s{i}", "engine": "jit", "args": {"n": 24000},
              "timeout": 3400} for i in range(16)]
 
+
+SHIPPED_BY_N = {12: ["nug12", "chr12c", "had12", "tai12a"]}
 
 EDGES = [127, 128, 255, 256, 32767, 32768, 65535, 65536, 2 ** 31 - 1, 2 ** 31,
          2 ** 31 + 1, 2 ** 32 - 1, 2 ** 32, 2 ** 32 + 1, 10 ** 15 - 1,
@@ -121,6 +124,14 @@ def gen(rng, n):
                 F[i][i] = 0
                 D[i][i] = 0
             tag = "zero-diagonal"
+            if rng.integers(2):
+                # a large "no self-assignment" sentinel on one diagonal: it
+                # is only ever multiplied by the other diagonal's zeros
+                M = F if rng.integers(2) else D
+                sv = int(rng.choice([127, 128, 9999, 65535, 10 ** 6]))
+                for i in range(n):
+                    M[i][i] = sv
+                tag = "diagonal-sentinel"
         if kind == 5:
             tag = "big"
     return F, D, tag
@@ -386,9 +397,25 @@ def run_shard(ctx, args):
                     "lf": lf, "ld": ld}
             ctx.case()
             ctx.count(f"input_layout[{lf}]")
+            iname = f"rnd{n}" if rng.integers(2) else None
+            if n in SHIPPED_BY_N and rng.integers(2):
+                iname = str(rng.choice(SHIPPED_BY_N[n]))  # a shipped name
+                ctx.count("instances_named_like_a_shipped_one")
+            kw = {}
+            if n <= 6 and rng.integers(2):
+                # the optional bounds, as tight as they can validly be
+                vals = [sum(F[i][j] * D[p[i]][p[j]] for i in range(n)
+                            for j in range(n))
+                        for p in itertools.permutations(range(n))]
+                if rng.integers(2):
+                    kw["upper_bound"] = max(vals)
+                if rng.integers(2):
+                    kw["lower_bound"] = min(vals)
+                if kw:
+                    ctx.count("instances_with_given_bounds")
+                    case["bounds"] = {k: int(v) for k, v in kw.items()}
             inst = Instance(relayout(np.array(D, dd), ld),
-                            relayout(np.array(F, df), lf),
-                            name=(f"rnd{n}" if rng.integers(2) else None))
+                            relayout(np.array(F, df), lf), name=iname, **kw)
             # (no "caller re-uses its buffers" step here: unlike the TSP /
             # TTP / bin-packing instances, qap.Instance documents no copy
             # and deliberately keeps an array that already has the storage
@@ -435,7 +462,8 @@ def replay(ctx, case):
     else:
         inst = Instance(
             relayout(np.array(D, np.dtype(case["dd"])), case.get("ld", "C")),
-            relayout(np.array(F, np.dtype(case["df"])), case.get("lf", "C")))
+            relayout(np.array(F, np.dtype(case["df"])), case.get("lf", "C")),
+            **{k: int(v) for k, v in case.get("bounds", {}).items()})
     judge_instance(ctx, inst, F, D, {k: v for k, v in case.items()
                                      if k != "perm"}, "replay",
                    len(F) <= 6)
